@@ -72,7 +72,7 @@ impl Stage for Ends {
         "termination"
     }
     fn cases(&self, tier: Tier) -> u32 {
-        tier.pick(6000, 80_000)
+        tier.pick(20000, 800000)
     }
     fn strategy(&self, _t: Tier) -> BoxedStrategy<Case> {
         (
